@@ -66,6 +66,9 @@ func (q *Seq[S]) exec(hist []int, check bool) (s S, fail string) {
 // Explore runs the search; returns the deepest fully completed depth.
 func (q *Seq[S]) Explore() int {
 	r := q.Run
+	if r.Free() > 0 {
+		return 0 // the auxiliary free-running pass only runs the scheduler scenarios
+	}
 	if q.Workers <= 0 {
 		q.Workers = runtime.NumCPU()
 	}
